@@ -279,8 +279,10 @@ def c10(ctx):
             ("sim", lambda: sim(ctx, "n5", both(5, 3, "verifier", 2) + both(5, 4, "dealer"), 10 if q else 300, 12)),
             ("sysmc", lambda: sys_mc(ctx, "n3", [sys_code(3, 2, v, 2) for v in ("pedersen", "rabin")])),
             ("sys", lambda: sys_gen(ctx, "sim", [sys_code(3, 2, v, 2) for v in ("pedersen", "rabin")] + [sys_code(4, 3, v, 2) for v in ("pedersen", "rabin")]
-                                    + [sys_code(3, 3, v, 1) for v in ("pedersen", "rabin")],
-                                    11, simulate="num=%d" % (60 if q else 1500))),
+                                    + [sys_code(3, 3, v, 1) for v in ("pedersen", "rabin")]
+                                    # honest dealer (MaxF = 0): every run ends certified => every T-subset goes through RecoverSecret
+                                    + [sys_code(n, t, v, 0) for v in ("pedersen", "rabin") for (n, t) in ((3, 2), (4, 2), (4, 3), (5, 3), (5, 4))],
+                                    11, simulate="num=%d" % (120 if q else 2000))),
             ("rec", lambda: ctx.run_vh("record", ["-traces", api, "-num", 150 if q else 1500, "-nmax", 5 if q else 7], binary=binary)),
             ("hooks", lambda: hook_traces(ctx))]
     if not q:
